@@ -33,9 +33,32 @@ pub fn rand_addr(rng: &mut StdRng) -> SocketAddr {
         let ip: [u8; 4] = *[[0, 0, 0, 0], [255, 255, 255, 255], [0x21, 0x12, 0xa4, 0x42], rng.gen()].choose(rng).unwrap();
         SocketAddr::from((ip, port))
     } else {
-        let ip: [u8; 16] = if rng.gen_bool(0.3) { [0; 16] } else if rng.gen_bool(0.3) { [255; 16] } else { rng.gen() };
+        let mut ip: [u8; 16] = if rng.gen_bool(0.3) { [0; 16] } else if rng.gen_bool(0.3) { [255; 16] } else { rng.gen() };
+        match rng.gen_range(0..10) {
+            0 => { ip[..10].fill(0); ip[10] = 0xff; ip[11] = 0xff; }            // IPv4-mapped  ::ffff:a.b.c.d
+            1 => { ip[..12].fill(0); }                                          // IPv4-compatible  ::a.b.c.d
+            2 => { ip = [0; 16]; ip[15] = 1; }                                  // loopback
+            3 => { ip[0] = 0xfe; ip[1] = 0x80; ip[2..8].fill(0); }              // link-local
+            _ => {}
+        }
         SocketAddr::from((ip, port))
     }
+}
+
+/// an address whose XOR-MAPPED-ADDRESS wire form (address XOR magic cookie || transaction id) has a chosen shape
+pub fn xor_shaped_addr(rng: &mut StdRng, tid: TransactionId) -> SocketAddr {
+    let t: u128 = tid.into();
+    let key: [u8; 16] = ((0x2112a442u128 << 96) | t).to_be_bytes();
+    let mut wire: [u8; 16] = rng.gen();
+    match rng.gen_range(0..4) {
+        0 => { wire[..10].fill(0); wire[10] = 0xff; wire[11] = 0xff; }          // the wire form looks IPv4-mapped
+        1 => { wire[8..12].copy_from_slice(&[0x80, 0x28, 0x00, 0x04]); }        // ... ends like a FINGERPRINT attribute
+        2 => { wire = [0; 16]; }                                                // ... is all zero (address = key)
+        _ => { wire[8..12].copy_from_slice(&[0x00, 0x08, 0x00, 0x14]); }        // ... ends like a MESSAGE-INTEGRITY header
+    }
+    let mut ip = [0u8; 16];
+    for i in 0..16 { ip[i] = wire[i] ^ key[i]; }
+    SocketAddr::from((ip, rng.gen::<u16>()))
 }
 
 pub fn rand_cred(rng: &mut StdRng) -> CredDesc {
@@ -89,12 +112,12 @@ pub fn rand_attr(rng: &mut StdRng, k: usize, tid: TransactionId) -> (Box<dyn Att
                let l: Vec<u16> = (0..n).map(|_| if rng.gen_bool(0.6) { *pool.choose(rng).unwrap() } else { rng.gen() }).collect();
                let lt: Vec<AttributeType> = l.iter().map(|x| AttributeType::new(*x)).collect();
                (Box::new(UnknownAttributes::new(&lt)), json!({"t": 10, "list": l})) }
-        7 => { let a = rand_addr(rng); (Box::new(XorMappedAddress::new(a, tid)), json!({"t": 32, "addr": crate::codec::addr_json(a)})) }
+        7 => { let a = if rng.gen_bool(0.25) { xor_shaped_addr(rng, tid) } else { rand_addr(rng) }; (Box::new(XorMappedAddress::new(a, tid)), json!({"t": 32, "addr": crate::codec::addr_json(a)})) }
         8 => { let a = rand_addr(rng); (Box::new(AlternateServer::new(a)), json!({"t": 32803, "addr": crate::codec::addr_json(a)})) }
         9 => { let v: u32 = rng.gen(); (Box::new(Priority::new(v)), json!({"t": 36, "u32": v.to_be_bytes().to_vec()})) }
         10 => (Box::new(UseCandidate::new()), json!({"t": 37})),
-        11 => { let v: u64 = rng.gen(); (Box::new(IceControlled::new(v)), json!({"t": 32809, "u64": v.to_be_bytes().to_vec()})) }
-        12 => { let v: u64 = rng.gen(); (Box::new(IceControlling::new(v)), json!({"t": 32810, "u64": v.to_be_bytes().to_vec()})) }
+        11 => { let v: u64 = if rng.gen_bool(0.15) { 0x8028_0004_0000_0000u64 | rng.gen::<u32>() as u64 } else { rng.gen() }; (Box::new(IceControlled::new(v)), json!({"t": 32809, "u64": v.to_be_bytes().to_vec()})) }
+        12 => { let v: u64 = if rng.gen_bool(0.15) { 0x8028_0004_0000_0000u64 | rng.gen::<u32>() as u64 } else { rng.gen() }; (Box::new(IceControlling::new(v)), json!({"t": 32810, "u64": v.to_be_bytes().to_vec()})) }
         13 => { let md5 = rng.gen_bool(0.5); let a = if md5 { PasswordAlgorithmValue::MD5 } else { PasswordAlgorithmValue::SHA256 };
                 (Box::new(PasswordAlgorithm::new(a)), json!({"t": 29, "alg": if md5 { 1 } else { 2 }})) }
         14 => { let n = rng.gen_range(1..4); let ids: Vec<u8> = (0..n).map(|_| if rng.gen_bool(0.5) { 1 } else { 2 }).collect();
@@ -112,7 +135,13 @@ pub fn rand_attr(rng: &mut StdRng, k: usize, tid: TransactionId) -> (Box<dyn Att
                 if ![0x8028u16, 0x8022, 0x8023, 0x8029, 0x802a, 0x8002, 0x8003].contains(&t) { break t; }
             };
             let n = len_pick(rng, 763);
-            let v: Vec<u8> = (0..n).map(|_| rng.gen()).collect();
+            let mut v: Vec<u8> = (0..n).map(|_| rng.gen()).collect();
+            if n >= 8 && rng.gen_bool(0.15) {
+                // a value that ends like an attribute header (FINGERPRINT, MESSAGE-INTEGRITY, MESSAGE-INTEGRITY-SHA256)
+                let h: [u8; 4] = *[[0x80, 0x28, 0, 4], [0, 8, 0, 20], [0, 0x1c, 0, 32]].choose(rng).unwrap();
+                let at = n + (4 - n % 4) % 4 - 8;       // so that header + 4 more bytes (value or padding) end the padded attribute
+                v[at..at + 4].copy_from_slice(&h);
+            }
             (Box::new(RawAttribute::new_owned(AttributeType::new(ty), v.clone().into_boxed_slice())), json!({"t": ty, "raw": v}))
         }
     }
